@@ -153,6 +153,36 @@ pub fn run(tape: &[u8], ctx: &mut Ctx) {
 		});
 		check(ctx, o, format!("BufReader cap {cap}"));
 	}
+	// a target that ignores the whole datum (skipping has its own code paths, per reader kind)
+	{
+		let ign_slice = {
+			let mut cfg = DeserializerConfig::new(&case.crate_schema);
+			cfg.max_seq_size = max_seq;
+			let mut st = DeserializerState::with_config(SliceRead::new(&input), cfg);
+			let r = <serde::de::IgnoredAny as serde::Deserialize>::deserialize(st.deserializer());
+			let left = {
+				use std::io::BufRead;
+				let mut rd = st.into_reader();
+				rd.fill_buf().map(|b| b.len()).unwrap_or(0)
+			};
+			r.map(|_| input.len() - left).map_err(|_| ())
+		};
+		for k in [1usize, 2, 3, 5, 8, 13] {
+			let mut cfg = DeserializerConfig::new(&case.crate_schema);
+			cfg.max_seq_size = max_seq;
+			let mut rr = ReaderRead::new(ChunkedReader::uniform(&input, k));
+			rr.max_alloc_size = 1 << 20;
+			let mut st = DeserializerState::with_config(rr, cfg);
+			let r = <serde::de::IgnoredAny as serde::Deserialize>::deserialize(st.deserializer());
+			let rd = st.into_reader().into_inner();
+			let o = r.map(|_| rd.consumed()).map_err(|_| ());
+			evals += 1;
+			if o != ign_slice || rd.over_consumed {
+				ctx.violation("C11/ignoring-target-differs", format!("schema {} input {} ({what}) ignored as a whole: slice {:?} vs reader(chunk {k}) {:?}{}", case.json, hex(&input), ign_slice, o, if rd.over_consumed { " (consume() beyond the exposed buffer)" } else { "" }));
+				break;
+			}
+		}
+	}
 	// model-directed capture target on valid inputs: same value, same consumption
 	if is_valid {
 		let cfg = CapCfg::from_tape(&mut t);
